@@ -255,7 +255,33 @@ pub fn run(ctx: &'static Ctx) -> i32 {
     per.push(json!({"queue": format!("Vec<Error> len<={veclen}"), "states": st.states, "transitions": st.transitions}));
     total.add(&st);
 
+    // directed deep histories beyond the BFS length bound (growth past 256 entries, then clear / reuse)
+    let mut deep_steps = 0u64;
+    for (name, cap) in [("Vec<Error> deep", None), ("ArrayVec<Error,8> deep", Some(8usize))] {
+        let m = QueueModel::new(cap, usize::MAX, 3);
+        let (mut sys, mut rf) = m.init();
+        let mut script: Vec<usize> = vec![];
+        for i in 0..300 {
+            script.push(i % 3);
+        }
+        for _ in 0..300 {
+            script.push(3);
+        }
+        script.extend([0, 1, 4, 3, 0, 1, 2]);
+        for i in 0..600 {
+            script.push(if i % 5 == 4 { 3 } else { i % 3 });
+        }
+        script.extend([4, 3, 0, 3, 3]);
+        for (i, &a) in script.iter().enumerate() {
+            deep_steps += 1;
+            if let Err(mm) = m.step(&mut sys, &mut rf, a) {
+                ctx.violation(1_000_000 + i as u64, &format!("deep-{}", mm.key), &format!("[{name}] step {i} of a {}-step history (`{}`): {}", script.len(), m.render(a), mm.what), json!({"kind": "deep", "cap": cap, "upto": i + 1}));
+                break;
+            }
+        }
+    }
     let mut c = cov();
+    c.insert("deep_trace_steps".into(), json!(deep_steps));
     c.insert("states".into(), json!(total.states));
     c.insert("transitions".into(), json!(total.transitions));
     c.insert("traces_validated_against_impl".into(), json!(total.transitions));
@@ -278,6 +304,24 @@ pub fn run(ctx: &'static Ctx) -> i32 {
 }
 
 pub fn replay(case: &Value) -> Result<String, Mismatch> {
+    if case["kind"] == "deep" {
+        let cap = case["cap"].as_u64().map(|x| x as usize);
+        let m = QueueModel::new(cap, usize::MAX, 3);
+        let mut script: Vec<usize> = vec![];
+        for i in 0..300 {
+            script.push(i % 3);
+        }
+        for _ in 0..300 {
+            script.push(3);
+        }
+        script.extend([0, 1, 4, 3, 0, 1, 2]);
+        for i in 0..600 {
+            script.push(if i % 5 == 4 { 3 } else { i % 3 });
+        }
+        script.extend([4, 3, 0, 3, 3]);
+        let upto = (case["upto"].as_u64().unwrap_or(0) as usize).min(script.len());
+        return crate::lockstep::replay(&m, &script[..upto]);
+    }
     let m = QueueModel::from_cfg(&case["config"]).unwrap_or_else(|| engine_failure("bad C12 replay config"));
     let actions: Vec<usize> = case["actions"]
         .as_array()
